@@ -49,7 +49,7 @@ def resStr : Res → String
   | .err => "err"
   | .ierr ps => s!"ierr in={listStr (ps.map toHex)}"
   | .panic => "panic"
-  | .bad w => s!"bad:{w}"
+  | .bad w => if w == "cpanic" then "cpanic" else s!"bad:{w}"
   | .envBad => "envbad"
 
 structure ObsT where
@@ -102,6 +102,8 @@ def parseChunks (s : String) (headAb : Nat) : List Chunk :=
 inductive Cmd where
   | new (cap : Nat) (f : Bool)
   | op (o : Op)
+  /-- the arena reserves space (operation `o`), then user code panics: the space stays reserved -/
+  | opThenPanic (o : Op)
   | drop
   | nop
 
@@ -121,6 +123,12 @@ def parseCmd (toks : List String) : Option Cmd := do
     if kind ≤ 2 then some (.op (.alloc (esz * cnt) eal (b "f")))
     else some (.op (.array esz eal cnt (b "f")))
   | "tfill" => some (.op (.tfill (← n "esz") (← n "eal") (← n "n") (n "errat")))
+  | "pfill" =>
+    let o := Op.array (← n "esz") (← n "eal") (← n "n") false
+    match n "at" with
+    | some i => if i < (← n "n") then some (.opThenPanic o) else some (.op o)
+    | none => some (.op o)
+  | "patw" => some (.opThenPanic (.alloc (← n "sz") (← n "al") (b "f")))
   | "aalloc" => some (.op (.aalloc (← n "sz") (← n "al")))
   | "afree" => some (.op (.afree (← n "p") (← n "sz") (← n "al")))
   | "agrow" => some (.op (.agrow (← n "p") (← n "osz") (← n "oal") (← n "nsz") (← n "nal") (b "z")))
@@ -195,6 +203,16 @@ def processLine (st : DState) (line : String) : DState × List String :=
           | some a =>
             let (s, r) := step st.E o { a := a, ans := answers }
             (some s.a, r, s.evs, s.underflow, s.ans.length)
+        | .opThenPanic o =>
+          match st.arena with
+          | none => (none, .bad "op without arena", [], false, 0)
+          | some a =>
+            let (s, r) := step st.E o { a := a, ans := answers }
+            -- a successful reservation followed by a panic in user code: reported as `cpanic`
+            let r' := match r with
+              | .ptr _ => Res.bad "cpanic"
+              | other => other
+            (some s.a, r', s.evs, s.underflow, s.ans.length)
       let mRes := resStr res
       let mEvt := listStr (evs.map evStr) ++ (if under then " env-underflow" else "") ++ (if left > 0 then " env-leftover" else "")
       let name := opToks.headD "?"
